@@ -688,13 +688,18 @@ def _c18(payload):
     dz = np.array(prof.dz, dtype=float); n = len(dz)
     dzsum = np.array(prof.dzsum, dtype=float); zbot = np.array(prof.zBot, dtype=float); ztop = np.array(prof.z_top, dtype=float); zmid = np.array(prof.zMid, dtype=float)
     cum = np.cumsum(dz)
+    soil_user0 = sim.make_soil(cfg["soil"])
+    dz_user = np.array(soil_user0.profile["dz"], dtype=float)
+    deepened = bool(len(dz_user) != n or not np.allclose(dz_user, dz, rtol=0, atol=1e-9))
+    tag = ":deepened" if deepened else ""
     def chk(ok, key, what):
         if not ok:
             viol.append(V("C18:" + key, what))
     chk(np.all(dz > 0), "dz_positive", "non-positive compartment thickness %r" % dz.tolist())
-    chk(np.allclose(dzsum, cum, rtol=0, atol=5.1e-3) and np.allclose(zbot, cum, rtol=0, atol=5.1e-3), "bottoms", "compartment bottoms %r are not the running sum of thicknesses %r" % (zbot.tolist(), cum.tolist()))
-    chk(np.allclose(ztop, zbot - dz, rtol=0, atol=1e-9), "tops", "compartment tops inconsistent with bottoms and thickness")
-    chk(np.allclose(zmid, (ztop + zbot) / 2, rtol=0, atol=1e-9), "mids", "compartment mid-depths inconsistent")
+    chk(np.allclose(dzsum, cum, rtol=0, atol=5.1e-3), "dzsum", "cumulative depths %r are not the running sum of thicknesses %r" % (dzsum.tolist(), cum.tolist()))
+    chk(np.allclose(zbot, cum, rtol=0, atol=5.1e-3), "bottoms" + tag, "compartment bottoms %r are not the running sum of thicknesses %r" % (zbot.tolist(), cum.tolist()))
+    chk(np.allclose(ztop, zbot - dz, rtol=0, atol=1e-9), "tops" + tag, "compartment tops inconsistent with bottoms and thickness")
+    chk(np.allclose(zmid, (ztop + zbot) / 2, rtol=0, atol=1e-9), "mids" + tag, "compartment mid-depths inconsistent")
     lay = np.array(prof.Layer, dtype=int)
     chk(lay[0] == 1 and np.all(np.diff(lay) >= 0) and np.all(np.diff(lay) <= 1), "layers_contiguous", "layer indices %r not contiguous from the surface" % lay.tolist())
     wp = np.array(prof.th_wp); fc = np.array(prof.th_fc); s = np.array(prof.th_s); dry = np.array(prof.th_dry); tau = np.array(prof.tau)
